@@ -485,9 +485,15 @@ def handleDiag (fields : List SExp) : String :=
   let expected := match planted with
     | [s, e] => (Spec.region name user (s - 0) (e - 0)).map hexOfBytes
     | _ => none
-  let plantedShown := match expected with
+  -- a second place that has to be shown (the other declaration of a name declared twice)
+  let second : Bool := match nats "planted2" with
+    | [s, e] => (match (Spec.region name user s e).map hexOfBytes with
+      | some r => shown.contains r
+      | none => false)
+    | _ => true
+  let plantedShown := (match expected with
     | some r => shown.contains r
-    | none => false
+    | none => false) && second
   s!"M {model} ;; S planted={if plantedShown then 1 else 0} builtin={if mentionsBuiltin then 1 else 0}"
 
 def handleLex (fields : List SExp) : String :=
